@@ -306,6 +306,12 @@ for _k in ("C01", "C02"):
 CLAIMED["C02"]["note"] = CLAIMED["C02"]["note"].replace("that no failure other than ValidationError exists is checked by the correspondence run only.",
     "that no failure other than ValidationError leaves MessageSchema.load is theorem loadGen_eq about the translated validators inside a hand-written "
     "rendering of marshmallow's field pipeline (LC.schemaLoad), and is also exercised by the correspondence run.")
+PERSIST_TIE = (" Persistence.load and Persistence.save are regenerated from the code on every run (tools/translate.py -> Generated/PersistBodies.lean over "
+               "Model/LitPersist.lean: the two try statements of load with their handlers in source order, the file operations of save in the order it "
+               "performs them) and Lemmas/PersistBodiesEq.lean proves load_eq (= Persist.loadFile) and saveOps_eq (= FileOps.saveOps).")
+for _k in ("C13", "C14", "C15"):
+    CLAIMED[_k]["text"] += PERSIST_TIE
+    CLAIMED[_k]["technique"] += " + Persistence.load/save translated from the Python AST with equality proofs (PersistBodiesEq)"
 CLAIMED["C18"]["text"] += (" The two pure mapping functions (_parse_message_to_mqtt, _parse_mqtt_to_message) are regenerated from the code on every run "
                            "(tools/translate.py -> Generated/MqttBodies.lean over Model/LitMqtt.lean) and Lemmas/MqttBodiesEq.lean proves them equal to "
                            "Mqtt.toTopic (ValueError exactly where it is none) and Mqtt.toLine, the functions the round-trip theorems are about.")
